@@ -1011,6 +1011,10 @@ func c01Sweep(c *Ctx) error {
 	var cases []*c01Case
 	rejected := 0
 	for _, src := range progs {
+		if strings.Contains(src, "...this") || strings.Contains(src, " in this") || strings.Contains(src, " of this") {
+			// enumerating the global object observes the creation order of global `var`s, which hoisting may change
+			continue
+		}
 		for _, rename := range []bool{true, false} {
 			out, err, crash := c01Minify(src, 0, !rename)
 			if crash != "" {
